@@ -154,7 +154,15 @@ def extract(top):
                     problems.append('atom_lookup')
                 e = a.element
                 sym = 'VS' if (e is None or e.symbol == 'VS') else e.symbol
-                atoms.append({'name': a.name, 'elem': sym, 'serial': a.serial, 'res': res_index[id(r)]})
+                ser = a.serial
+                if isinstance(ser, float) and ser != ser:
+                    ser = 'nan'          # a data frame turns a missing serial into NaN; NaN != NaN would poison every later comparison
+                elif ser is not None and not isinstance(ser, (int, str)):
+                    try:
+                        ser = int(ser) if float(ser) == int(ser) else float(ser)
+                    except Exception:
+                        ser = repr(ser)
+                atoms.append({'name': a.name, 'elem': sym, 'serial': ser, 'res': res_index[id(r)]})
                 k += 1
     if top.n_atoms != k:
         problems.append('n_atoms_counter')
@@ -231,7 +239,7 @@ def carrier_limits(carrier, model):
         for a, b in zip(rs[:-1], rs[1:]):
             if a['chain'] == b['chain'] and a['resSeq'] == b['resSeq'] and a['name'] == b['name']:
                 lim.update(['residue_partition', 'residue_name', 'resSeq', 'segment_id', 'chain_partition', 'chain_id'])
-        if any(a['serial'] is None for a in model['atoms']):
+        if any(a['serial'] is None or a['serial'] == 'nan' for a in model['atoms']):
             lim.add('serial')
     elif carrier == 'pdb':
         ok = True
@@ -243,7 +251,7 @@ def carrier_limits(carrier, model):
             ok = False
         if any(len(r['seg']) > 4 for r in model['residues']):
             ok = False
-        if any(a['elem'] == 'VS' or len(a['name']) > 4 or a['serial'] is None or not (0 < a['serial'] < 100000) for a in model['atoms']):
+        if any(a['elem'] == 'VS' or len(a['name']) > 4 or a['serial'] is None or not isinstance(a['serial'], int) or not (0 < a['serial'] < 100000) for a in model['atoms']):
             ok = False
         if len(set(a['serial'] for a in model['atoms'])) != len(model['atoms']):
             ok = False
@@ -447,6 +455,11 @@ def execute(check, case, workdir):
                 derived('dataframe', m, top2, m.model, stepno, carrier=True)
             elif kind in ('h5', 'pdb'):
                 n = len(m.model['atoms'])
+                if any(a['serial'] == 'nan' for a in m.model['atoms']):
+                    # a serial that went through a data frame as "missing" is NaN (carrier limit above); the file writers
+                    # cannot format it.  Not a new finding: skipped.
+                    res.probe('carrier_skipped_nan_serial')
+                    continue
                 xyz = np.arange(n * 3, dtype=np.float32).reshape(1, n, 3) * 0.01
                 t = md.Trajectory(xyz, top)
                 p = os.path.join(workdir, 'top%d.%s' % (stepno, kind))
